@@ -177,6 +177,15 @@ def search(rec, ctx):
         if size >= target:
             check(rec, {"src": "".join(parts), "mode": "exec", "stream": "long-program"})
 
+    import itertools
+
+    CLAUSES = ["except:", "except E:", "except E as e:", "except* E:", "else:", "finally:"]
+    for seq in ctx.shard([s for n in (1, 2, 3) for s in itertools.product(CLAUSES, repeat=n)]):
+        check(rec, {"src": "try:\n    a\n" + "".join(c + "\n    b\n" for c in seq), "mode": "exec", "stream": "try-clause-sequences"})
+    for key in ctx.shard(["1j", "-2.5J", "1+2j", "-1-1j", "0j", "1.5", "-3", "'k'", "b'k'", "None", "True", "a.b", "U'k'", "'a' 'b'"]):
+        for tmpl in ("match v:\n    case {{{K}: a}}: pass\n", "match v:\n    case {{{K}: a, **rest}}: pass\n", "match v:\n    case {K}: pass\n", "match v:\n    case [{K}, *_] | {K}: pass\n"):
+            check(rec, {"src": tmpl.replace("{{", "\x00").replace("}}", "\x01").replace("{K}", key).replace("\x00", "{").replace("\x01", "}"), "mode": "exec", "stream": "pattern-literals"})
+
     seeds_for_layout = list(corp)
 
     def g1(rnd):
